@@ -123,7 +123,7 @@ class MapGen:
             if i == 63:
                 locs.append({"_left_x1": 0, "_top_y1": 0, "_right_x2": 4096, "_bottom_y2": 4096,
                              "_string_id": self.sid("Anywhere"), "_elevation_flags": 0})
-            elif rng.random() < (0.08 if nloc == 255 else 0.25):
+            elif rng.random() < self.opts.get("loc_density", 0.08 if nloc == 255 else 0.25):
                 x1, y1 = rng.randrange(0, 4000), rng.randrange(0, 4000)
                 locs.append({"_left_x1": x1, "_top_y1": y1, "_right_x2": x1 + rng.randrange(0, 500),
                              "_bottom_y2": y1 + rng.randrange(0, 500),
@@ -379,6 +379,11 @@ class MapGen:
         if wild and rng.random() < 0.3 and len(acts) >= 2:
             acts.insert(rng.randrange(1, len(acts)), dict.fromkeys(ACTION_FIELDS, 0))   # a gap
             acts = acts[:64]
+        if wild and rng.random() < 0.3 and 1 <= len(conds) <= 13:
+            # a gap in the condition list too, with entries the library has no model for behind it
+            conds.insert(rng.randrange(1, len(conds) + 1), dict.fromkeys(COND_FIELDS, 0))
+            conds.append(self.condition(rng.choice(["unknown", "unsupported"])))
+            conds = conds[:16]
         conds += [dict.fromkeys(COND_FIELDS, 0)] * (16 - len(conds))
         acts += [dict.fromkeys(ACTION_FIELDS, 0)] * (64 - len(acts))
         return {"_conditions": conds, "_actions": acts,
@@ -396,10 +401,29 @@ def load(b: bytes):
     return RichChkIo().decode_chk(ChkIo().decode_chk_binary_data(b))
 
 
-def save(rich) -> bytes:
+def save(rich, wav_meta=None) -> bytes:
+    """wav_meta: None (encode_chk's default) or [[path, duration_ms], ...] -> the optional wav_metadata_lookup"""
     from richchk.io.chk.chk_io import ChkIo
     from richchk.io.richchk.richchk_io import RichChkIo
-    return ChkIo().encode_chk_to_bytes(RichChkIo().encode_chk(rich))
+    if wav_meta is None:
+        return ChkIo().encode_chk_to_bytes(RichChkIo().encode_chk(rich))
+    from richchk.model.mpq.stormlib.wav.stormlib_wav import StormLibWav
+    from richchk.model.richchk.wav.rich_wav_metadata_lookup import RichWavMetadataLookup
+    lookup = RichWavMetadataLookup(_metadata_by_wav_path={p: StormLibWav(p, d) for p, d in wav_meta})
+    return ChkIo().encode_chk_to_bytes(RichChkIo().encode_chk(rich, wav_metadata_lookup=lookup))
+
+
+
+def wav_meta_of(b: bytes):
+    """metadata for (most of) the sound paths the map's Play WAV actions name: what StarCraftMpqIo.save_chk_to_mpq
+    passes to encode_chk.  None when the map plays no sound."""
+    try:
+        v = SpecView(b)
+        paths = sorted({a["_path_to_wav_in_mpq"] for t in v.triggers() for a in t["actions"]
+                        if isinstance(a, dict) and a.get("type") == 8 and isinstance(a.get("_path_to_wav_in_mpq"), str)})
+    except Exception:  # noqa
+        return None
+    return [[p, 2000 + 41 * i] for i, p in enumerate(paths)] or None
 
 
 def fixtures():
